@@ -29,6 +29,7 @@ type Verdict struct {
 	NonTrivial  bool     // by the property's stated rule
 	Classes     []string // generator-health labels
 	Sample      any      // optional richer rendering of the case for evidence samples
+	Replay      any      // optional: what to write as the replay scenario instead of the generated case (C13: case + recorded history)
 }
 
 func ok(nontrivial bool, classes ...string) Verdict {
@@ -202,6 +203,11 @@ func (r *Run) record(sub string, sc any, v Verdict) bool {
 	b, err := json.Marshal(sc)
 	if err != nil {
 		panic(fmt.Sprintf("scenario not serialisable: %v", err))
+	}
+	if v.Violation != "" && v.Replay != nil {
+		if rb, err := json.Marshal(v.Replay); err == nil {
+			b = rb
+		}
 	}
 	r.mu.Lock()
 	defer r.mu.Unlock()
@@ -403,4 +409,17 @@ func registerReplay[S any](id string, check func(*testing.T, S) Verdict) {
 // type differs from the property's main one.
 func registerReplaySub[S any](id, sub string, check func(*testing.T, S) Verdict) {
 	registerReplay(id+"/"+sub, check)
+}
+
+// writeFuzzReplay stores a violation found by a native fuzz target as an ordinary replay file.
+func writeFuzzReplay(id string, sc any, v Verdict) string {
+	e := readEnv()
+	os.MkdirAll(e.replayDir, 0o755)
+	b, _ := json.Marshal(sc)
+	rf := replayFile{Property: id, Sub: "fuzz", Message: v.Violation, Fingerprint: v.Fingerprint, Scenario: b}
+	out, _ := json.MarshalIndent(rf, "", " ")
+	path := filepath.Join(e.replayDir, fmt.Sprintf("%s-fuzz-%x.json", id, hashJSON(b)))
+	os.WriteFile(path, out, 0o644)
+	fmt.Printf("HARNESS-VIOLATION property=%s replay=%s fingerprint=%s\n%s\n", id, path, v.Fingerprint, v.Violation)
+	return path
 }
